@@ -11,6 +11,38 @@ RF_HOOK = RF_ZC + " --cfg cryptocorrosion_verif"
 PPV_FUNCS_X86 = "ppv_lite86::x86_64::sse2::* (u32x4_sse2, u64x2_sse2, u128x1_sse2, avx2::u32x4x2_avx2) and soft::{x2,x4} trait impls"
 PPV_FUNCS_GEN = "ppv_lite86::generic::* (u32x4_generic, u64x2_generic, u128x1_generic) and soft::{x2,x4} trait impls"
 
+CH_CORE = "c2_chacha::guts::{round, diagonalize, undiagonalize, refill_wide_impl, refill_wide, refill_narrow, refill_narrow_rounds, d0123, add_pos, ChaCha::{output_narrow, inc_block_ct, pos64, refill, refill4, refill_rounds}}"
+CH_BUF = "c2_chacha::rustcrypto_impl::{Buffer::try_apply_keystream, seek64, seek32, ChaChaAny::{new, seek, try_apply_keystream, try_seek, try_current_pos}, init_chacha, init_chacha_x}"
+CH_PAR = "c2_chacha::guts::ChaCha::{new, set_stream_param, get_stream_param, stream32_eq, stream64_eq}"
+SHAPE_BOUND = "try_apply_keystream: per-call (buffer fill, length) shapes enumerated concretely, length <= 448 bytes (7 blocks + buffered bytes); counter, keystream, data, histories unbounded/symbolic"
+
+
+def CHACHA_RULES(kind):
+    core = ["C01", "C14", "C03"]
+    r = [
+        (r"leaf::c15_", dict(filter="c15_", props=["C15"], tier="quick", funcs=CH_PAR)),
+        (r"leaf::", dict(filter="leaf::", props=core, tier="quick", funcs=CH_CORE)),
+        # wiring, quick subset: every dispatch arm at a few round counts; thorough: all drounds 0..=10
+        (r"c01_refill_(l\d|gen)_dr(0|2|10)$", dict(filter="c01_refill_", props=core, tier="quick", funcs=CH_CORE, timeout=1200)),
+        (r"c01_refill4_(l\d|gen)_dr(0|1|2)$", dict(filter="c01_refill4_", props=core, tier="quick", funcs=CH_CORE, timeout=1200)),
+        (r"c01_refill_rounds_(l\d|gen)_dr(0|4|10)$", dict(filter="c01_refill_rounds_", props=["C01", "C03"], tier="quick", funcs=CH_CORE, timeout=1200)),
+        (r"c01_refill_(l\d|gen)_dr", dict(filter="c01_refill_", props=core, tier="thorough", funcs=CH_CORE, timeout=1800)),
+        (r"c01_refill4_(l\d|gen)_dr", dict(filter="c01_refill4_", props=core, tier="thorough", funcs=CH_CORE, timeout=3000)),
+        (r"c01_refill_rounds_(l\d|gen)_dr", dict(filter="c01_refill_rounds_", props=["C01", "C03"], tier="thorough", funcs=CH_CORE, timeout=1800)),
+        (r"c01_new_", dict(filter="c01_new_", props=["C01", "C02", "C11"], tier="quick", funcs=CH_BUF)),
+        (r"c02_seek_", dict(filter="c02_seek_", props=["C02", "C11"], tier="quick", funcs=CH_BUF)),
+        (r"c02_pos_", dict(filter="c02_pos_", props=["C02"], tier="quick", funcs=CH_BUF)),
+        (r"shapes_quick::c02_apply_", dict(filter="shapes_quick", props=["C01", "C02", "C11", "C16"], tier="quick", funcs=CH_BUF, bounded=SHAPE_BOUND, timeout=1500)),
+        (r"shapes_thorough::c02_apply_", dict(filter="shapes_thorough", props=["C01", "C02", "C11"], tier="thorough", funcs=CH_BUF, bounded=SHAPE_BOUND, timeout=1800)),
+    ]
+    if kind == "generic":
+        # the stream-cipher layer is backend independent except for dispatch: run the loop-free
+        # operation contracts and the alias shapes on the portable build too; the dense grids once (x86)
+        r = [x for x in r if "shapes_thorough" not in x[0]]
+        r = [((r"shapes_quick::c02_apply_(chacha8|chacha12|xchacha|chacha20_h(p0|m1)_n(65|320)|ietf_h(p0|m1)_n(65|320))", m) if "shapes_quick" in rx else (rx, m)) for rx, m in r]
+    return r
+
+
 UNITS = {
     "ppv_x86": dict(
         template="kani/ppv", crate="ppv_h", zflags=["stubbing"], cargo_args=[], rustflags=RF_ZC,
@@ -30,17 +62,40 @@ UNITS = {
             (r"::c13_", dict(filter="c13_", props=["C13", "C03"], tier="quick", funcs=PPV_FUNCS_GEN)),
         ],
     ),
+    "chacha_x86": dict(
+        template="kani/chacha", crate="chacha_h", zflags=["stubbing"], cargo_args=[], rustflags=RF_HOOK,
+        backend_note="std build: real dispatch!/dispatch_light128! arms selected through the real is_x86_feature_detected! over a CPUID model (levels SSE2, SSSE3, SSE4.1, AVX, AVX2)",
+        rules=CHACHA_RULES("x86"),
+    ),
+    "chacha_generic": dict(
+        template="kani/chacha", crate="chacha_h", zflags=["stubbing"], cargo_args=["--features", "no_simd"], rustflags=RF_HOOK,
+        backend_note="no_simd build: portable backend",
+        rules=CHACHA_RULES("generic"),
+    ),
+    "ppvnull": dict(
+        template="kani/ppvnull", crate="ppvnull_h", zflags=[], cargo_args=[], rustflags=RF_ZC,
+        backend_note="ppv-null emulation types",
+        rules=[(r"::c19_", dict(filter="c19_", props=["C19"], tier="quick", funcs="every public method and operator impl of ppv_null::{u32x4,u64x4,u128x1,u128x2,u32x4x4}"))],
+    ),
 }
 
 # property -> ordered list of units consulted
 PROP_UNITS = {
     "C12": ["ppv_x86", "ppv_generic"],
     "C13": ["ppv_x86", "ppv_generic"],
+    "C19": ["ppvnull"],
+    "C01": ["chacha_x86", "chacha_generic"],
+    "C14": ["chacha_x86", "chacha_generic"],
+    "C15": ["chacha_x86", "chacha_generic"],
+    "C02": ["chacha_x86", "chacha_generic"],
+    "C11": ["chacha_x86", "chacha_generic"],
 }
 
 PROP_LEVEL = {
     "C12": "proof",
     "C13": "proof",
+    "C19": "proof",
+    "C01": "proof", "C14": "proof", "C15": "proof", "C02": "proof", "C11": "proof",
 }
 
 TRUSTED_COMMON = [
